@@ -88,12 +88,12 @@ impl<'a> TemporalIndexBuilder<'a> {
 
                 let min_ts = *ts_vals_ts.iter().min().unwrap_or(&0);
                 let max_ts = *ts_vals_ts.iter().max().unwrap_or(&0);
-                if min_ts >= 0 && max_ts >= 0 {
-                    let entry = calendars
-                        .entry("timestamp".to_string())
-                        .or_insert_with(|| TemporalCalendarIndex::new("timestamp"));
-                    entry.add_zone_range(zp.id, min_ts as u64, max_ts as u64);
-                }
+                // Instants before the epoch are registered under the first bucket
+                // (the pruner clamps its probe the same way), so the zone stays reachable.
+                let entry = calendars
+                    .entry("timestamp".to_string())
+                    .or_insert_with(|| TemporalCalendarIndex::new("timestamp"));
+                entry.add_zone_range(zp.id, min_ts.max(0) as u64, max_ts.max(0) as u64);
             }
 
             // Build ZTI for each field present in this zone and update calendars
@@ -109,12 +109,11 @@ impl<'a> TemporalIndexBuilder<'a> {
 
                 let min_ts = *ts_vals.iter().min().unwrap_or(&0);
                 let max_ts = *ts_vals.iter().max().unwrap_or(&0);
-                if min_ts >= 0 && max_ts >= 0 {
-                    let entry = calendars
-                        .entry(field.clone())
-                        .or_insert_with(|| TemporalCalendarIndex::new(field.clone()));
-                    entry.add_zone_range(zp.id, min_ts as u64, max_ts as u64);
-                }
+                // Pre-epoch instants (e.g. birth dates) go under the first bucket, see above.
+                let entry = calendars
+                    .entry(field.clone())
+                    .or_insert_with(|| TemporalCalendarIndex::new(field.clone()));
+                entry.add_zone_range(zp.id, min_ts.max(0) as u64, max_ts.max(0) as u64);
             }
         }
 
